@@ -26,6 +26,7 @@ func genCaseC08(t *rapid.T) *c08Case {
 	base.Op = d.Ops[0].Name
 	base.LateRegister = rapid.IntRange(0, 3).Draw(t, "lateRegister") == 0
 	base.ViaAPI = rapid.IntRange(0, 3).Draw(t, "schemaViaGoAPI") == 0
+	base.KeepParsed = base.LateRegister && rapid.Bool().Draw(t, "keepParsed")
 	cc := &c08Case{Base: base, Bind: bind}
 	cc.Configs = append(cc.Configs, uniform(base, "X", false, "reflection", false))
 	var tnames []string
@@ -86,6 +87,9 @@ func TestC08(t *testing.T) {
 		cl := []string{"config=" + c.Note, fmt.Sprintf("registered-after-first-use=%v", c.LateRegister)}
 		if c.ViaAPI {
 			cl = append(cl, "schema-built-with-the-go-api")
+		}
+		if c.KeepParsed {
+			cl = append(cl, "parsed-request-kept-across-the-registrations")
 		}
 		for tn, b := range bind {
 			fam := "X"
